@@ -101,8 +101,22 @@ def import_statements(text):
     return out, None
 
 
-def allowed(stmt, core_parts):
+def allowed(stmt, core_parts, out_parts=None):
     """-> True / False / SymBool"""
+    if out_parts:
+        a = allowed(stmt, core_parts)
+        if a is True:
+            return True
+        b = allowed(stmt, out_parts)  # an absolute import inside the emitted package itself
+        if a is False:
+            return b
+        if b is False:
+            return a
+        if b is True:
+            return True
+        from symx.core import s_or
+
+        return s_or(a, b)
     level, comps = stmt
     if level > 0:
         return True
@@ -131,8 +145,9 @@ def allowed(stmt, core_parts):
     return s_and(*[sb(x) for x in conj])
 
 
-def verdict_texts(texts, core):
+def verdict_texts(texts, core, out=None):
     core_parts = [_simp(p) for p in core.split(".")]
+    out_parts = [_simp(p) for p in out.split(".")] if out is not None else None
     from symx.core import s_and
 
     cond = True
@@ -141,7 +156,7 @@ def verdict_texts(texts, core):
         if stmts is None:
             return False, "does not lex: %s" % err
         for st in stmts:
-            a = allowed(st, core_parts)
+            a = allowed(st, core_parts, out_parts)
             if a is False:
                 return False, "import of %r" % (".".join(pysig.show(c) for c in st[1]),)
             if a is not True:
@@ -150,13 +165,13 @@ def verdict_texts(texts, core):
 
 
 # ------------------------------------------------------------------ K1
-def _render_site(P, site, core):
+def _render_site(P, site, core, out=None):
     kernel = c15.SITES[site][0]
     rc = import_module(P.__name__ + ".context.render_context")
     saved = c15._ctx
 
     def ctx(P2, rel):
-        c = rc.RenderContext(core_package_name=core, package_root_for_generated_code="/tmp/x/pkg", overall_project_root="/tmp/x")
+        c = rc.RenderContext(core_package_name=core, package_root_for_generated_code="/tmp/x/pkg", overall_project_root="/tmp/x", output_package_name=out)
         c.set_current_file("/tmp/x/pkg/" + rel)
         return c
 
@@ -167,13 +182,15 @@ def _render_site(P, site, core):
         c15._ctx = saved
 
 
-def _render_shape(P, body, resp, core):
+def _render_shape(P, body, resp, core, out=None):
     rc = import_module(P.__name__ + ".context.render_context")
     real = rc.RenderContext
 
     class RC(real):
         def __init__(self, **kw):
             kw["core_package_name"] = core
+            if out is not None:
+                kw["output_package_name"] = out
             real.__init__(self, **kw)
 
     ee = import_module(P.__name__ + ".emitters.endpoints_emitter")
@@ -189,9 +206,9 @@ class ImportScan(Obligation):
     alphabet = PKG
     timeout_ms = 30000
 
-    def __init__(self, kind, what, n):
-        self.kind, self.what, self.n = kind, what, n
-        self.name = "import_scan/%s/%s/core_len=%d" % (kind, what, n)
+    def __init__(self, kind, what, n, with_out=False):
+        self.kind, self.what, self.n, self.with_out = kind, what, n, with_out
+        self.name = "import_scan/%s/%s/core_len=%d%s" % (kind, what, n, "/nested_output_package" if with_out else "")
         self.functions = (c15.SITES[what][3] if kind == "site" else c13sig.SigParity.functions) + [
             "pyopenapi_gen.context.render_context:RenderContext.add_import", "pyopenapi_gen.context.import_collector:ImportCollector.get_formatted_imports"]
         self.bounds = {"module": what, "core_package_name": "symbolic dotted name, %d characters over 'k q .'" % n}
@@ -204,13 +221,17 @@ class ImportScan(Obligation):
         for i, k in enumerate(pat):
             seg = mk_sym_str(k, "seg%d" % i, SEG)
             core = seg if core is None else core + "." + seg
-        return {"core": core}
+        inp = {"core": core}
+        if self.with_out:
+            # the client is emitted as a nested package <a>.<b> (absolute-import mode knows its dotted name)
+            inp["out"] = mk_sym_str(1, "outa", SEG) + "." + mk_sym_str(1, "outb", SEG)
+        return inp
 
     def _run(self, P, inp):
         if self.kind == "site":
-            return call_catching(_render_site, P, self.what, inp["core"])
+            return call_catching(_render_site, P, self.what, inp["core"], inp.get("out"))
         body, resp = self.what.split("+")
-        return call_catching(_render_shape, P, body, resp, inp["core"])
+        return call_catching(_render_shape, P, body, resp, inp["core"], inp.get("out"))
 
     def run_sym(self, inp):
         return self._run(_I(), inp)
@@ -224,16 +245,17 @@ class ImportScan(Obligation):
     def prop(self, inp, r):
         if isinstance(r, Raised) or r is None:
             return True
-        return verdict_texts(r, inp["core"])[0]
+        return verdict_texts(r, inp["core"], inp.get("out"))[0]
 
     def describe_violation(self, inp, r):
         if isinstance(r, Raised) or r is None:
             return "rendering raised"
-        return "core package %r, module %s: %s" % (_simp(inp["core"]), self.what, verdict_texts(r, inp["core"])[1])
+        return "core package %r%s, module %s: %s" % (_simp(inp["core"]), (", output package %r" % _simp(inp["out"])) if inp.get("out") is not None else "", self.what,
+                                                     verdict_texts(r, inp["core"], inp.get("out"))[1])
 
 
-def mk_scan(kind, what, n):
-    return ImportScan(kind, what, n)
+def mk_scan(kind, what, n, with_out=False):
+    return ImportScan(kind, what, n, with_out)
 
 
 # ------------------------------------------------------------------ K2
@@ -499,6 +521,12 @@ def specs(tier):
     for sh in SHAPES:
         for n in ((1, 3) if q else (1, 3, 4)):
             out.append((MOD, "mk_scan", ("shape", sh, n)))
+    # nested output package with a top-level core whose name may begin like the package's last segment
+    for site in ("model.class_description", "model.json_wrapper_description", "endpoint.summary", "client.title"):
+        out.append((MOD, "mk_scan", ("site", site, 2, True)))
+    if not q:
+        for site in c15.SITES:
+            out.append((MOD, "mk_scan", ("site", site, 3, True)))
     out.append((MOD, "mk_copy", (1, 1)))
     out.append((MOD, "mk_copy", (2, 2)))
     return out
